@@ -118,7 +118,7 @@ def gen(ctx):
     # random longer programs
     weights = {"j": 6, "g": 4, "s": 3, "a": 2, "x": 2, "c": 2, "U": 2, "M": 2, "o": 2, "l": 1, "d": 2, "i": 2, "t": 2}
     bag = [v for v in V for _ in range(weights.get(v[0], 1))]
-    for _ in range(20000 if not th else 200000):
+    for _ in range(12000 if not th else 200000):
         n = rng.randrange(4, 13)
         body = [("j", rng.choice(VALUES[7:]))] + [rng.choice(bag) for _ in range(n)]
         progs.append(body + [("Q", None), ("o", "-")] if rng.random() < 0.5 else with_dump(body))
